@@ -49,6 +49,51 @@ def register(reg):
                               'forall(1, 17, lambda i: self._ebS[i] == old(self._ebS)[i])',
                               '(self._ebS[0].size == 0) == is_none(self._ebS[0].value)'],
                      canaries=['self._ebS[0].size == 0', 'self._ebS[0].size == 1'], crosscheck=False))
+    # setEntryBlock: a block of a legal type replaces the block of that type and nothing else (the terminator is then re-sized);
+    # an illegal or excluded type is refused and nothing changes
+    reg.add_spec_source('def same_eb(a, b):\n    return (a.type == b.type and a.size == b.size and a.repCode == b.repCode and is_none(a.value) == is_none(b.value)\n            and implies(not is_none(a.value), a.value == b.value))\n')
+    BLK_OK = 'theEb.size >= 0 and (theEb.size == 0) == is_none(theEb.value)'
+    reg.add(Contract(LR, 'EntryBlockSet.setEntryBlock', {'self': EBS, 'theEb': EB}, requires=[INTEG_Q] + INTEG + [BLK_OK], modifies=['self._ebS'],
+                     raises={'ExceptionEntryBlock': 'theEb.type < 0 or theEb.type > 16 or theEb.type == 10'},
+                     ensures=['len(self._ebS) == 17',
+                              'implies(theEb.type >= 1, same_eb(self._ebS[theEb.type], theEb))',
+                              'forall(1, 17, lambda i: implies(i != theEb.type, self._ebS[i] == old(self._ebS)[i]))',
+                              'self._ebS[0].type == 0', '(self._ebS[0].size + %s) %% 2 == 0' % OTHER,
+                              INTEG_Q],
+                     canaries=['self._ebS[1] == old(self._ebS)[1]', 'self._ebS[0].size == 0'], crosscheck=False, timeout=30))
+    # readFromFile: the entry blocks of the record are read one after the other up to and including the terminator (or to the
+    # end of the logical data) and every one of a legal type is put into the set, whatever its size; the others keep their
+    # defaults.  The file is abstracted to the sequence of blocks it decodes to (ghost field `blocks`, cursor `k`); the byte
+    # level (EntryBlockRead.__new__: struct unpack + representation code read) is C07's and is trusted here.
+    FILE = KRec('FileRead', blocks=KView(EB), k=Int)
+    FL = 'src/TotalDepth/LIS/core/File.py'
+    reg.add(Contract(FL, 'FileRead.hasLd', {'self': FILE}, returns=Bool, ensures=['result == (self.k < len(self.blocks))'], trusted=True,
+                     note='abstract file: logical data is left iff blocks are left'), verify=False)
+    reg.add(Contract(LR, 'EntryBlockRead.__new__', {'self': Untracked, 'theFile': FILE}, requires=['0 <= theFile.k', 'theFile.k < len(theFile.blocks)'],
+                     modifies=['theFile.k'], returns=EB, trusted=True,
+                     ensures=['theFile.k == old(theFile.k) + 1', 'same_eb(result, theFile.blocks[old(theFile.k)])'],
+                     note='abstract file: the next block of the sequence'), verify=False)
+    BL = 'theFile.blocks'
+    LEGAL = lambda t: '(1 <= %s and %s <= 16 and %s != 10)' % (t, t, t)      # noqa: E731
+    reg.add(Contract(
+        LR, 'EntryBlockSet.readFromFile', {'self': EBS, 'theFile': FILE}, ghost={'t_end': Int},
+        requires=[INTEG_Q] + INTEG + ['theFile.k == 0', '0 <= t_end and t_end <= len(%s)' % BL,
+                  # t_end: the first terminator block (or the end of the data)
+                  'forall(0, t_end, lambda k: %s[k].type != 0)' % BL, 'implies(t_end < len(%s), %s[t_end].type == 0)' % (BL, BL),
+                  'forall(0, len(%s), lambda k: %s[k].size >= 0 and (%s[k].size == 0) == is_none(%s[k].value))' % (BL, BL, BL, BL),
+                  # each block type occurs at most once before the terminator (otherwise the last one wins: not stated here)
+                  'forall_n(lambda a, b: implies(0 <= a and a < b and b < t_end, %s[a].type != %s[b].type))' % (BL, BL)],
+        modifies=['self._ebS', 'theFile.k'],
+        ensures=['theFile.k == (t_end + 1 if t_end < len(%s) else t_end)' % BL,
+                 'forall(0, t_end, lambda k: implies(%s, same_eb(self._ebS[%s[k].type], %s[k])))' % (LEGAL(BL + '[k].type'), BL, BL),
+                 'forall(1, 17, lambda i: implies(forall(0, t_end, lambda k: %s[k].type != i), self._ebS[i] == old(self._ebS)[i]))' % BL,
+                 '(self._ebS[0].size + %s) %% 2 == 0' % OTHER, INTEG_Q],
+        loops=[Loop('while theFile.hasLd()', invariants=[
+            INTEG_Q, '0 <= theFile.k and theFile.k <= t_end',
+            'forall(0, theFile.k, lambda k: implies(%s, same_eb(self._ebS[%s[k].type], %s[k])))' % (LEGAL(BL + '[k].type'), BL, BL),
+            'forall(1, 17, lambda i: implies(forall(0, theFile.k, lambda k: %s[k].type != i), self._ebS[i] == old(self._ebS)[i]))' % BL],
+            decreases='len(%s) - theFile.k' % BL)],
+        canaries=['theFile.k == 0', 'self._ebS[1] == old(self._ebS)[1]'], crosscheck=False, timeout=30))
 
 
 def standins(tier, seed):
